@@ -262,6 +262,10 @@ class Normalizer:
             return '?'
         X = lambda x: self.expr(x, node, bound, depth + 1)  # noqa: E731
         p = list(path)
+        hr = self.helper_return(it)
+        if hr is not None and depth < MAX_DEPTH:
+            sub, rv, rn = hr
+            return sub.iter_elem(rv, path, rn, {}, depth + 1)
         if isinstance(it, ast.Call):
             fn = it.func
             if isinstance(fn, ast.Attribute) and not it.args:
@@ -357,6 +361,18 @@ class Normalizer:
             return f"isinstance({X(e.args[0])}, {self.class_set(e.args[1], node, bound, depth)})"
         if fn == 'builtins.issubclass' and len(e.args) == 2:
             return f"issubclass({X(e.args[0])}, {self.class_set(e.args[1], node, bound, depth)})"
+        # simple (branch-and-return only) helper methods of the same class are inlined: self.helper(args)
+        if isinstance(e.func, ast.Attribute) and isinstance(e.func.value, ast.Name) and self.func.cls is not None \
+                and e.func.value.id in self.func.params[:1] and not e.keywords \
+                and not any(isinstance(a, ast.Starred) for a in e.args):
+            inl = self._inline_simple_helper(e.func.attr, [X(a) for a in e.args], depth)
+            if inl is not None:
+                return inl
+        # simple module-level helpers of the package (branch-and-return only) are inlined as well
+        if fn.startswith('pane.') and fn in self.model.functions and not e.keywords and not any(isinstance(a, ast.Starred) for a in e.args):
+            inl = self._inline_simple_function(self.model.functions[fn], [X(a) for a in e.args], depth)
+            if inl is not None:
+                return inl
         # unique one-expression helper methods (``field.has_default()``) are inlined
         if self.inline_unique_methods and isinstance(e.func, ast.Attribute) and not e.args and not e.keywords:
             inl = self._inline_unique(e.func.attr, e.func.value, node, bound, depth)
@@ -374,6 +390,122 @@ class Normalizer:
         elts = e.elts if isinstance(e, ast.Tuple) else [e]
         names = sorted({_canon_class(self.expr(x, node, bound, depth + 1)) for x in elts})
         return '{' + ', '.join(names) + '}'
+
+    def helper_return(self, e: t.Optional[ast.AST]) -> t.Optional[t.Tuple['Normalizer', ast.expr, Node]]:
+        """``self.m()`` where ``m`` is a zero-argument helper of the same class consisting of one ``return <expr>``:
+        (normaliser of the helper, the returned expression, its node).  Lets loop provenance and comprehension
+        guards look through helpers such as ``def _init_converters(self): return (c for f, c in zip(...) if f.init)``."""
+        if not (isinstance(e, ast.Call) and isinstance(e.func, ast.Attribute) and isinstance(e.func.value, ast.Name)
+                and not e.args and not e.keywords and self.func.cls is not None and e.func.value.id in self.func.params[:1]):
+            return None
+        f = self.model.find_method(self.func.cls.qualname, e.func.attr)
+        if f is None or not isinstance(f.node, ast.FunctionDef) or f is self.func or len(f.params) != 1:
+            return None
+        body = [st for st in f.node.body if not (isinstance(st, ast.Expr) and isinstance(st.value, ast.Constant))]
+        if len(body) != 1 or not isinstance(body[0], ast.Return) or body[0].value is None:
+            return None
+        from .cfg import cfg_of
+        sub_cfg = cfg_of(self.model, f)
+        sub = Normalizer(self.model, f, sub_cfg, param_map={f.params[0]: 'self'}, inline_unique_methods=self.inline_unique_methods)
+        rn = [n for n in sub_cfg.nodes if n.kind == 'return' and n.ast is not None]
+        if len(rn) != 1:
+            return None
+        return sub, body[0].value, rn[0]
+
+    def _inline_simple_function(self, f: FuncInfo, args: t.List[str], depth: int) -> t.Optional[str]:
+        if depth > 6 or f is self.func or f.cls is not None or not isinstance(f.node, ast.FunctionDef) or f.parent is not None:
+            return None
+        if not f.name.startswith('_'):
+            return None      # public functions are anchors of the rules (data_is_sequence, rename_field, ...): kept by name
+        if f.decorators:
+            return None
+        return self._inline_body(f, dict(zip(f.params, args)) if len(f.params) == len(args) else None, depth)
+
+    def _inline_body(self, f: FuncInfo, pm: t.Optional[t.Dict[str, str]], depth: int) -> t.Optional[str]:
+        if pm is None:
+            return None
+
+        def simple(body: t.Sequence[ast.stmt]) -> bool:
+            for st in body:
+                if isinstance(st, ast.Expr) and isinstance(st.value, ast.Constant):
+                    continue
+                if isinstance(st, ast.Pass):
+                    continue
+                if isinstance(st, ast.Return) and st.value is not None:
+                    continue
+                if isinstance(st, ast.If) and simple(st.body) and simple(st.orelse):
+                    continue
+                return False
+            return True
+        if not simple(f.node.body):  # type: ignore[union-attr]
+            return None
+        rets = [n for n in ast.walk(f.node) if isinstance(n, ast.Return)]
+        if not rets or len(rets) > 4:
+            return None
+        from .cfg import cfg_of
+        sub_cfg = cfg_of(self.model, f)
+        sub = Normalizer(self.model, f, sub_cfg, param_map=pm, inline_unique_methods=self.inline_unique_methods)
+        forms = set()
+        for n in sub_cfg.nodes:
+            if n.kind == 'return' and n.ast is not None and n.ast.value is not None:
+                forms.add(sub.expr(n.ast.value, n, None, depth + 1))
+        if not forms:
+            return None
+        return next(iter(forms)) if len(forms) == 1 else 'PHI(' + '|'.join(sorted(forms)) + ')'
+
+    def _inline_simple_helper(self, mname: str, args: t.List[str], depth: int) -> t.Optional[str]:
+        """``self.m(args)`` where ``m`` consists only of (nested) ``if`` statements and ``return <expr>`` statements:
+        the normal form is the set of its possible results with the arguments substituted."""
+        if depth > 6 or self.func.cls is None:
+            return None
+        f = self.model.find_method(self.func.cls.qualname, mname)
+        if f is None or not isinstance(f.node, ast.FunctionDef) or f is self.func or mname in ('try_convert', 'collect_errors', 'convert', 'into_data'):
+            return None
+
+        def simple(body: t.Sequence[ast.stmt]) -> bool:
+            for st in body:
+                if isinstance(st, ast.Expr) and isinstance(st.value, ast.Constant):
+                    continue
+                if isinstance(st, ast.Pass):
+                    continue
+                if isinstance(st, ast.Return) and st.value is not None:
+                    continue
+                if isinstance(st, ast.If) and simple(st.body) and simple(st.orelse):
+                    continue
+                return False
+            return True
+        if not simple(f.node.body):
+            return None
+        rets = [n for n in ast.walk(f.node) if isinstance(n, ast.Return)]
+        if not rets or len(rets) > 4:
+            return None
+        # no calls to sub-converters / opaque callables hidden inside: only pure expression helpers
+        for rt in rets:
+            for c in ast.walk(rt.value):
+                if isinstance(c, ast.Call) and isinstance(c.func, ast.Attribute) and c.func.attr in ('try_convert', 'collect_errors', 'convert'):
+                    return None
+        params = f.params
+        is_static = any(isinstance(d, ast.Name) and d.id == 'staticmethod' for d in f.decorators)
+        pm: t.Dict[str, str] = {}
+        if not is_static and params:
+            pm[params[0]] = 'self'
+            params = params[1:]
+        if len(params) != len(args):
+            return None
+        for p_, a in zip(params, args):
+            pm[p_] = a
+        from .cfg import cfg_of
+        sub_cfg = cfg_of(self.model, f)
+        sub = Normalizer(self.model, f, sub_cfg, param_map=pm, inline_unique_methods=self.inline_unique_methods)
+        forms = set()
+        for n in sub_cfg.nodes:
+            if n.kind == 'return' and n.ast is not None and n.ast.value is not None:
+                forms.add(sub.expr(n.ast.value, n, None, depth + 1))
+        if not forms:
+            return None
+        if len(forms) == 1:
+            return next(iter(forms))
+        return 'PHI(' + '|'.join(sorted(forms)) + ')'
 
     def _inline_unique(self, mname: str, recv: ast.expr, node: Node, bound: t.Dict[str, str], depth: int) -> t.Optional[str]:
         owners = [c for c in self.model.classes.values() if mname in c.methods]
